@@ -128,21 +128,18 @@ func (t DataType) goValue(endian binary.ByteOrder, bs []byte) (interface{}, erro
 		}
 		return string(bs), nil
 	case UNITEXT:
-		runes := []rune{}
-
-		for i := 0; i < len(bs); i++ {
-			// Determine if byte is a utf16 surrogate - if so two
-			// bytes must be consumed to form one utf16 code point
-			if utf16.IsSurrogate(rune(bs[i])) {
-				r := utf16.DecodeRune(rune(bs[i]), rune(bs[i+1]))
-				runes = append(runes, r)
-				i++
-			} else {
-				runes = append(runes, rune(bs[i]))
-			}
+		if len(bs)%2 != 0 {
+			return nil, fmt.Errorf("invalid length for %v: %d is not a multiple of two", t, len(bs))
 		}
 
-		s := string(runes)
+		// Two bytes form one utf16 code unit, surrogate pairs are
+		// combined by utf16.Decode.
+		units := make([]uint16, len(bs)/2)
+		for i := range units {
+			units[i] = binary.LittleEndian.Uint16(bs[2*i:])
+		}
+
+		s := string(utf16.Decode(units))
 		// Trim null bytes from the right - ASE always sends the
 		// maximum bytes for the TEXT datatype, causing the string
 		// to have a couple thousand null bytes. These are also
